@@ -263,6 +263,94 @@ func childRun(args []string) int {
 
 	base := 21000 + (idx%200)*40 + (os.Getpid()%5)*8
 
+	if mode == "survivor" {
+		// One router keeps running while its peer goes through several construct/start/peer/stop cycles: what a
+		// relay sees all day. Nothing of a peer that is gone may stay behind in the survivor - compared by stack
+		// signature after every cycle, a kind of goroutine whose number grows with every cycle is a leak.
+		portA := freePort(base)
+		if portA == 0 {
+			res.Inconcl = append(res.Inconcl, "no free loopback port")
+			return emit()
+		}
+		boot := func(name string, st config.Store) *mycoria.Instance {
+			cfg, err := st.Parse()
+			if err != nil {
+				fail("config-rejected", "router %s: a valid relay-only configuration was rejected: %v", name, err)
+				return nil
+			}
+			in, err := mycoria.New("v0.0.0-verif", cfg)
+			if err == nil {
+				err = in.Start()
+			}
+			if err != nil {
+				fail("start-failed", "router %s: New/Start failed: %v", name, err)
+				return nil
+			}
+			return in
+		}
+		instA := boot("A", buildStore(r, g, idA, portA, 0, 0, workdir, "a"))
+		if instA == nil {
+			return emit()
+		}
+		var perCycle []map[string]int
+		n := max(cycles, 3)
+		for cycle := 0; cycle < n; cycle++ {
+			instB := boot("B", buildStore(r, g, idB, 0, 0, portA, workdir, "b"))
+			if instB == nil {
+				break
+			}
+			deadline := time.Now().Add(30 * time.Second)
+			for instA.Peering().GetLink(idB.IP) == nil && time.Now().Before(deadline) {
+				time.Sleep(20 * time.Millisecond)
+			}
+			if instA.Peering().GetLink(idB.IP) == nil {
+				res.Inconcl = append(res.Inconcl, fmt.Sprintf("survivor: peer did not link in cycle %d", cycle))
+				instB.Stop()
+				break
+			}
+			if ok := instB.Stop(); !ok {
+				fail("stop-returned-false", "survivor mode, cycle %d: Stop() of the peer returned false", cycle)
+			}
+			deadline = time.Now().Add(30 * time.Second)
+			for instA.Peering().GetLink(idB.IP) != nil && time.Now().Before(deadline) {
+				time.Sleep(20 * time.Millisecond)
+			}
+			time.Sleep(300 * time.Millisecond)
+			runtime.GC()
+			counts := map[string]int{}
+			for _, gs := range mycoriaGoroutines() {
+				counts[sigOf(gs)]++
+			}
+			perCycle = append(perCycle, counts)
+			res.Cycles++
+		}
+		if len(perCycle) >= 3 {
+			last := perCycle[len(perCycle)-1]
+			for sig := range last {
+				growing := true
+				for k := 1; k < len(perCycle); k++ {
+					if perCycle[k][sig] <= perCycle[k-1][sig] {
+						growing = false
+					}
+				}
+				if growing {
+					fail("goroutines-accumulate-in-surviving-router:"+sig, "a router that stays up while its peer starts, peers and stops %d times holds more and more goroutines in %s: %v per cycle", len(perCycle), sig, func() []int {
+						var v []int
+						for _, c := range perCycle {
+							v = append(v, c[sig])
+						}
+						return v
+					}())
+					break
+				}
+			}
+		}
+		if ok := instA.Stop(); !ok {
+			fail("stop-returned-false", "survivor mode: Stop() of the surviving router returned false")
+		}
+		return emit()
+	}
+
 	for cycle := 0; cycle < cycles; cycle++ {
 		portA := freePort(base)
 		apiA := freePort(portA + 1)
@@ -597,7 +685,7 @@ func run(c *core.Ctx) {
 		res.Inconcl("os.Executable: %v", err)
 		return
 	}
-	n := c.Q(14, 308)
+	n := c.Q(16, 312)
 	maxCycles := c.Q(2, 5)
 	par := 12
 	prefix := ""
@@ -618,7 +706,7 @@ func run(c *core.Ctx) {
 			dir := filepath.Join(c.WorkDir, fmt.Sprintf("c%d", i))
 			ctx, cancel := context.WithTimeout(context.Background(), 8*time.Minute)
 			defer cancel()
-			mode := []string{"normal", "flood-stop", "stop-with-inflight-frame", "immediate", "single-cpu", "lonely-first", "noisy-listener"}[i%7]
+			mode := []string{"normal", "flood-stop", "stop-with-inflight-frame", "immediate", "single-cpu", "lonely-first", "noisy-listener", "survivor"}[i%8]
 			if mode == "lonely-first" && cycles < 2 {
 				cycles = 2
 			}
